@@ -83,9 +83,9 @@ func c13Strip(m *ref.Tree, keepInnerSupport bool) *ref.Tree {
 }
 
 type nsNode struct {
-	Name     string            `json:"name,omitempty"`
+	Name     string             `json:"name,omitempty"`
 	Attrs    map[string]float64 `json:"node_attrs"`
-	Children []*nsNode         `json:"children,omitempty"`
+	Children []*nsNode          `json:"children,omitempty"`
 }
 
 // nextstrainJSON is the harness' own emitter (cumulative divergence).
@@ -104,9 +104,9 @@ func nextstrainJSON(m *ref.Tree) string {
 }
 
 type rec13 struct {
-	id   int
-	m    *ref.Tree
-	err  error
+	id  int
+	m   *ref.Tree
+	err error
 }
 
 func readMulti(doc string, format int) []rec13 {
